@@ -370,6 +370,41 @@ func TestNilMapNotMarked(t *testing.T) {
 	}
 }
 
+// TestSelfEncodingStructs: regression cases for /repo 644a5bf (struct types
+// implementing proto.Message or the gogo-style custom interface were written
+// and read with two length prefixes: struct{A *PMsg}{&PMsg{}} -> 0a 01 00).
+// Singular, pointer, repeated and map-value slots of both types, both directions.
+func TestSelfEncodingStructs(t *testing.T) {
+	impl := ps.ImplMessage()
+	one := ps.Val{L: []ps.Val{num(1), {B: []byte("a")}}}
+	zero := ps.Val{L: []ps.Val{{}, {}}}
+	for _, kind := range []string{"pm", "cm"} {
+		c := Case{
+			Schema: ps.Schema{Msgs: []ps.Message{{Fields: []ps.Field{
+				{Num: 1, K: ps.KMsg, Msg: 1, Impl: kind},
+				{Num: 2, K: ps.KMsg, Msg: 1, Impl: kind, Ptr: true},
+				{Num: 3, K: ps.KMsg, Msg: 1, Impl: kind, Rep: true},
+				{Num: 4, K: ps.KMap, Key: ps.KString, Val: ps.KMsg, Msg: 1, Impl: kind, Ptr: true},
+			}}, impl}},
+			Items: []Item{
+				// reference encodings: 0a 05 08 01 12 01 61 | 12 00 | 1a 05 ... 1a 00 | 22 0a 0a 01 6b 12 05 ...
+				{V: ps.Val{L: []ps.Val{one, zero, {L: []ps.Val{one, zero}}, {L: []ps.Val{{B: []byte("k")}, one}}}},
+					Wires: [][]byte{{0x0a, 0x05, 0x08, 0x01, 0x12, 0x01, 0x61, 0x12, 0x00, 0x1a, 0x05, 0x08, 0x01, 0x12, 0x01, 0x61, 0x1a, 0x00,
+						0x22, 0x0a, 0x0a, 0x01, 0x6b, 0x12, 0x05, 0x08, 0x01, 0x12, 0x01, 0x61}}},
+				{V: ps.Val{L: []ps.Val{zero, {Nil: true}, {Nil: true}, {Nil: true}}}, ByPtr: true, Wires: [][]byte{{}, {0x0a, 0x00}}},
+			},
+		}
+		evid.Eval(len(c.Items))
+		skipped := 0
+		for _, f := range checkAll(&c, &skipped) {
+			evid.Violation(t, "SelfEncodingStructs", c, &f.Failure)
+		}
+		if skipped != 0 {
+			t.Fatalf("harness: %d regression wires are not legal encodings for the reference", skipped)
+		}
+	}
+}
+
 // TestWitnessesReproduce is a development aid: reports which class witnesses
 // fail on the current tree regardless of known_findings.json.
 func TestWitnessesReproduce(t *testing.T) {
